@@ -4,7 +4,7 @@ case = {"cbs": {"cls:Evt": rw, "cls:Jet": rw, "cls:Trk": rw, "m:Evt.jets": rw, "
                 "m:Trk.pt": rw, "fn": rw, "prop:Jet.attr": rw},     rw in {null (no callback), "none", "rename", "append"}
         "stages": [[op, param, IR], ...]}
 IR: ["site", recvIR, cls, meth, marker]  ["fn", marker]  ["psite", recvIR, paramsText, marker]  ["var", n]
-    ["op", opname, srcIR, param, bodyIR] ["count", srcIR] ["first", srcIR] ["bin", op, a, b] ["tup", [..]] ["dict", [[k, v]..]] ["const", text]
+    ["op", opname, srcIR, param, bodyIR] ["count", srcIR] ["first", srcIR] ["idx", srcIR, k] ["bin", op, a, b] ["tup", [..]] ["dict", [[k, v]..]] ["const", text]
 Every call site carries a unique integer marker as its (only) argument.
 """
 import ast
@@ -77,6 +77,9 @@ def _val(draw, var, cls, depth, names, ctr):
         if k == 3 and child in CHILD:
             c2, g = CHILD[child]
             return ["count", ["op", "SelectMany", src, v2, ["site", ["var", v2], child, c2, mark()]]]
+        if draw(st.booleans()):
+            # an element picked out of the typed sequence by a constant index (also a negative one) is an object of the element class
+            return ["site", ["idx", src, draw(st.sampled_from([0, 1, -1, -2]))], child, _scalar_of(draw, child), mark()]
         return ["site", ["first", src], child, _scalar_of(draw, child), mark()]
     if c == 6:
         if draw(st.booleans()):
@@ -205,6 +208,8 @@ def render(ir, cbs, mode):
         return f"{R(src)}.{op}(lambda {p}: {R(body)})"
     if k == "first":
         return f"{R(ir[1])}.First()"
+    if k == "idx":
+        return f"{R(ir[1])}[{ir[2]}]"
     if k == "count":
         return f"{R(ir[1])}.Count()"
     if k == "bin":
@@ -236,7 +241,7 @@ def sites_of(ir, depth=0, root_of_lambda=False):
     elif k == "op":
         yield from sites_of(ir[2], depth)
         yield from sites_of(ir[4], depth + 1, True)
-    elif k in ("count", "first", "fld"):
+    elif k in ("count", "first", "fld", "idx"):
         yield from sites_of(ir[1], depth)
     elif k == "wrap":
         yield from sites_of(ir[3], depth)
